@@ -844,6 +844,8 @@ class Executor:
             idx = step[1]
             if hasattr(v, 'index_step'):
                 return v.index_step(idx)
+            if isinstance(v, Seq) and not v.dense() and isinstance(idx, CI) and idx.v < len(v.ents) and all(g is True for g, _ in v.ents[:idx.v + 1]):
+                return v.ents[idx.v][1]        # the entries up to the index are certainly present: positions coincide
             elems = self.elems_of(v)
             if isinstance(idx, CI):
                 if idx.v >= len(elems):
@@ -1152,6 +1154,8 @@ class Executor:
             return tuple([v] * n)
         if k == 'len':
             v = self.read_place(fr, rv[1], st)
+            if isinstance(v, Seq):
+                return seq_len(v)
             return CI(len(self.elems_of(v)), 64)
         raise Unsupported('rvalue %r' % (rv,))
 
